@@ -78,6 +78,14 @@ def run(tier):
     blocks = []
     for ci in range(ncfg):
         cfg = g.cfg(constraints=True, groups=r.choice([1, 1, 2]))
+        if ci % 3 == 0:
+            # a sub-group handler entered by its own key (evaluated by a nested handler until a word is not for it)
+            sub = g.cfg(nargs=r.randint(1, 3), kinds=["flag", "int", "str", "vecint"], constraints=False, allow_pos=False)
+            sa = arggen.new_arg("flag"); sa["kind"] = "sub"; sa["sub"] = sub; sa["init"] = False
+            used_s = {a["s"] for a in cfg["args"]}; used_l = {tuple(a["l"]) for a in cfg["args"]}
+            sa["s"] = next(ord(ch) for ch in "GQKZ" if ord(ch) not in used_s); sa["l"] = T("subgroup")
+            sa["grp"] = 0
+            cfg["args"].append(sa)
         acts = []
         valid = [w for w in (g.spell_line(cfg, l) for l in (gen_valid(g, cfg) for _ in range(4)) if l) if w is not None]
         for k in range(nraw):
@@ -88,6 +96,12 @@ def run(tier):
                 words = [T("".join(r.choice("-=ab!()x1, ") for _ in range(r.randint(0, 5)))) for _ in range(r.randint(0, 6))]
             else:                          # mutation of a valid line
                 words = to_words(mutate_words(r, r.choice(valid)))
+            if cfg["args"] and cfg["args"][-1]["kind"] == "sub" and r.random() < 0.6:
+                sa = cfg["args"][-1]
+                key = r.choice([T("-" + chr(sa["s"])), T("--subgroup"), T("--subg")])
+                subw = to_words(g.spell_line(sa["sub"], gen_valid(g, sa["sub"]) or [])) if r.random() < 0.7 else []
+                pos = r.choice([len(words), len(words), r.randint(0, len(words))])
+                words = words[:pos] + [key] + subw + words[pos:]
             act = {"n": "Eval", "mode": r.choice(["handler", "handler", "groups"]) if any(a["grp"] for a in cfg["args"]) else "handler",
                    "presrc": "none", "filetext": [], "envstr": [], "argv": words, "cmd": [], "tag": {"k": "raw"}}
             src = r.randrange(5)
